@@ -49,12 +49,12 @@ Section O.
   Proof. reflexivity. Qed.
 
   Lemma open_do_HI w ts K :
-    HI d user cs_size w K [] -> c_open (w_c w) = false -> w_err (open_do d ts w) = false ->
+    HIb d user cs_size w K -> w_err (open_do d ts w) = false ->
     HI d user cs_size (open_do d ts w) K [] /\ c_open (w_c (open_do d ts w)) = true /\
     c_in_ts (w_c (open_do d ts w)) = c_in_ts (w_c w) /\ c_enabled (w_c (open_do d ts w)) = c_enabled (w_c w) /\
     w_err w = false.
   Proof.
-    intros (H1 & H2 & H3 & H4 & H5 & H6 & H7 & H8 & H9 & H10 & H11) Hop He.
+    intros (H1 & H2 & H3 & H4 & H5 & H6 & H7 & H8 & H9 & H10) He.
     unfold open_do in *.
     remember (open_reset w) as w1 eqn:W1.
     remember (open_hdr d w1) as w2 eqn:W2.
